@@ -9,6 +9,7 @@ import (
 	"go/types"
 	"path/filepath"
 	"strings"
+	"sync"
 )
 
 func init() {
@@ -28,6 +29,16 @@ func init() {
 	register(&propertyDef{ID: "C12", Level: "proof", Run: func(r *Run) error { return runRuntime(r, "C12") }})
 	register(&propertyDef{ID: "C18", Level: "proof", Run: func(r *Run) error {
 		u, keys, err := loadMainUnit()
+		if err != nil {
+			return err
+		}
+		r.Units = append(r.Units, u)
+		r.verifyFuncs(u, keys)
+		return nil
+	}})
+	// C15: the grammar analyses of package tree (countRules, checkRecursion, warn, list primitives) against tree/contracts_verif.go
+	register(&propertyDef{ID: "C15", Level: "proof", Run: func(r *Run) error {
+		u, keys, err := loadTreeUnit()
 		if err != nil {
 			return err
 		}
@@ -131,32 +142,71 @@ func runClosureProperty(r *Run, id string, optSets [][]string, corpusOnly bool) 
 		progs = keep
 	}
 	var samples []any
+	// programs are generated, loaded and turned into obligations concurrently (each has its own Unit);
+	// the results are merged in program order so that evidence and baselines are deterministic
+	type job struct {
+		name  string
+		p     programSpec
+		opts  []string
+		sub   *Run
+		unit  *Unit
+		count int
+	}
+	var jobs []*job
 	for _, p := range progs {
 		for _, opts := range optSets {
 			name := p.Name
 			if len(opts) > 0 {
 				name += strings.Join(opts, "")
 			}
-			gp, err := Generate(name, p.Grammar, opts)
+			jobs = append(jobs, &job{name: name, p: p, opts: opts, sub: &Run{Property: r.Property, Tier: r.Tier, Seed: r.Seed, Budget: r.Budget, Start: r.Start,
+				Trusted: map[string]bool{}, Assume: map[string]bool{}, Extra: map[string]any{}}})
+		}
+	}
+	if _, err := buildTools(); err != nil {
+		return err
+	}
+	var wg sync.WaitGroup
+	sem := make(chan struct{}, 6)
+	for _, j := range jobs {
+		wg.Add(1)
+		sem <- struct{}{}
+		go func(j *job) {
+			defer wg.Done()
+			defer func() { <-sem }()
+			gp, err := Generate(j.name, j.p.Grammar, j.opts)
 			if err != nil {
 				// a program that cannot be generated, or whose output does not type-check, is a failed obligation
-				r.Obls = append(r.Obls, &Obligation{Name: name + "#unit.welltyped", Kind: "unit", Unit: name, Goal: "false", PC: "true",
+				j.sub.Obls = append(j.sub.Obls, &Obligation{Name: j.name + "#unit.welltyped", Kind: "unit", Unit: j.name, Goal: "false", PC: "true",
 					Detail: "generated parser could not be produced or does not type-check: " + trunc(err.Error(), 1500), Result: SolverResult{Verdict: VUnknown, Output: trunc(err.Error(), 3000)}})
-				continue
+				return
 			}
-			r.Units = append(r.Units, gp.Unit)
-			before := len(r.Obls)
-			gp.verifyClosures(r, nil)
-			kept := r.Obls[:before]
-			for _, ob := range r.Obls[before:] {
+			j.unit = gp.Unit
+			j.count = len(gp.Unit.Funcs)
+			gp.verifyClosures(j.sub, nil)
+			var kept []*Obligation
+			for _, ob := range j.sub.Obls {
 				if attributed(ob, id) {
 					kept = append(kept, ob)
 				}
 			}
-			r.Obls = kept
-			if len(samples) < 6 {
-				samples = append(samples, map[string]any{"program": name, "grammar": p.Grammar, "options": opts, "closures": len(gp.Unit.Funcs)})
-			}
+			j.sub.Obls = kept
+		}(j)
+	}
+	wg.Wait()
+	for _, j := range jobs {
+		if j.unit != nil {
+			r.Units = append(r.Units, j.unit)
+		}
+		r.Fns = append(r.Fns, j.sub.Fns...)
+		r.Obls = append(r.Obls, j.sub.Obls...)
+		r.Notes = append(r.Notes, j.sub.Notes...)
+		r.Programs += j.sub.Programs
+		for a := range j.sub.Assume {
+			r.Assume[a] = true
+		}
+		if len(samples) < 6 && j.unit != nil {
+			samples = append(samples, map[string]any{"program": j.name, "grammar": j.p.Grammar, "options": j.opts, "closures": j.count})
 		}
 	}
 	r.Samples = append(r.Samples, samples...)
